@@ -1,0 +1,39 @@
+//go:build verif
+// +build verif
+
+package dawg
+
+//This file is only compiled with the build tag verif. It gives verification harnesses read-only access to the structure of the automaton.
+
+//VerifNode describes one node of a Dawg for verification purposes.
+type VerifNode struct {
+	Final    bool
+	NumWords int
+	Labels   []byte
+	Links    []int //Indices into the slice returned by VerifNodes.
+}
+
+//VerifNodes returns a description of every node reachable from t, each exactly once, with the root at index 0. Nodes are identified by pointer and t is not modified.
+func VerifNodes(t *Dawg) []VerifNode {
+	index := map[*Dawg]int{t: 0}
+	order := []*Dawg{t}
+	for i := 0; i < len(order); i++ {
+		for _, child := range order[i].links {
+			if _, ok := index[child]; !ok {
+				index[child] = len(order)
+				order = append(order, child)
+			}
+		}
+	}
+	nodes := make([]VerifNode, len(order))
+	for i, d := range order {
+		labels := make([]byte, len(d.linkLabels))
+		copy(labels, d.linkLabels)
+		links := make([]int, len(d.links))
+		for j, child := range d.links {
+			links[j] = index[child]
+		}
+		nodes[i] = VerifNode{Final: d.final, NumWords: d.numWords, Labels: labels, Links: links}
+	}
+	return nodes
+}
